@@ -2106,6 +2106,68 @@ def prove_eq(ctx, assumptions, lhs, rhs, name="", **kw):
     return check(ctx, assumptions, zl == zr, name=name + f"[direct | exp-goal x{mlt}]", alt_goals=[toreal(e) == 1], **kw)
 
 
+def prove_pos(ctx, assume, t, depth=0, budget=None, timeout=10_000):
+    """sufficient structural proof of t > 0: products / quotients of positive factors, sums of positive summands,
+    both branches of an If under their conditions; the solver decides the leaves.  returns True / False (not proved)"""
+    budget = budget if budget is not None else [200]
+    if not is_z(t):
+        return t > 0
+    n = znum(t)
+    if n is not None:
+        return n > 0
+    if budget[0] <= 0:
+        return False
+    k = t.decl().kind()
+    ch = t.children()
+    small = nonlinearity(t, 10**9, 61)[1] <= 60
+    if small:
+        # cheap whole-node attempt first (a falsifiable node is refuted at once instead of timing out on its parts)
+        budget[0] -= 1
+        st, _ = check(ctx, assume, t > 0, timeout=4_000)
+        if st == "unsat":
+            return True
+        if st == "sat" and not _has_uf(t):
+            return False
+    if depth < 12:
+        if k == z3.Z3_OP_MUL:
+            # try: every factor positive; squares are handled by pairing equal factors
+            rest = list(ch)
+            ok = True
+            while rest:
+                f = rest.pop()
+                twin = next((g for g in rest if g.eq(f)), None)
+                if twin is not None:
+                    rest.remove(twin)
+                    st, _ = check(ctx, assume, f != 0, timeout=timeout)
+                    budget[0] -= 1
+                    if st != "unsat":
+                        ok = False
+                        break
+                    continue
+                if not prove_pos(ctx, assume, f, depth + 1, budget, timeout):
+                    ok = False
+                    break
+            if ok:
+                return True
+        elif k == z3.Z3_OP_DIV:
+            if prove_pos(ctx, assume, ch[0], depth + 1, budget, timeout) and prove_pos(ctx, assume, ch[1], depth + 1, budget, timeout):
+                return True
+        elif k == z3.Z3_OP_ADD:
+            if all(prove_pos(ctx, assume, c, depth + 1, budget, timeout) for c in ch):
+                return True
+        elif k == z3.Z3_OP_ITE:
+            c, a, b = ch
+            if prove_pos(ctx, list(assume) + [c], a, depth + 1, budget, timeout) and prove_pos(ctx, list(assume) + [z3.Not(c)], b, depth + 1, budget, timeout):
+                return True
+        elif k == z3.Z3_OP_UNINTERPRETED and t.decl().name() == "EXP":
+            return True
+    if small:
+        return False
+    budget[0] -= 1
+    st, _ = check(ctx, assume, t > 0, timeout=timeout)
+    return st == "unsat"
+
+
 def model_value(m, t):
     """evaluate term in model -> Fraction / int / bool / None"""
     if not is_z(t):
